@@ -43,7 +43,8 @@ ASSUMPTIONS = [
 ]
 REQUIRED = {"stratum:locality": 20, "stratum:potential": 20, "route:text": 40, "route:api": 40,
             "checked:deriv": 100, "checked:deriv2": 60, "leaf:custom": 10, "leaf:table": 5,
-            "mod:product": 10, "mod:pow": 5, "mod:trans": 10, "mod:spline": 5, "at_zero": 10}
+            "mod:product": 10, "mod:pow": 5, "mod:trans": 10, "mod:spline": 5, "at_zero": 10,
+            "stratum:table_slope": 10, "checked:table_slope": 200}
 
 
 @st.composite
@@ -114,6 +115,14 @@ def _potential_case(draw):
             "h": draw(st.sampled_from([1e-6, 1e-6, 1e-5, 1e-4]))}
 
 
+@st.composite
+def _slope_case(draw):
+    pd = draw(gen.potdef(draw(st.sampled_from([0, 1, 1])), [], [], max_ranges=2, analytic_only=True))
+    return {"kind": "table_slope", "env": {"custom": [], "table": []}, "pd": pd,
+            "cutoff": draw(st.sampled_from([3.0, 5.0, 6.5, 10.0])), "nr": draw(st.sampled_from([801, 1201, 2001])),
+            "target": draw(st.sampled_from(["LAMMPS", "DL_POLY"]))}
+
+
 def strategy(tier):
     return _expr_case(2, "analytic")
 
@@ -126,12 +135,13 @@ def strata(tier):
         ("expr:table", _expr_case(2, "table"), 2),
         ("expr:regular_at_origin", st.one_of(_expr_case(1, "regular0"), _expr_case(2, "regular0")), 2),
         ("locality", _locality_case(), 2), ("potential", _potential_case(), 2),
+        ("table_slope", _slope_case(), 1),
     ]
 
 
 def budget(tier):
     if tier == "quick":
-        return {"examples": 260}
+        return {"examples": 450}
     return {"examples": 3000, "shards": 16}
 
 
@@ -452,8 +462,63 @@ def _check_potential(case):
     return {"v": v, "cls": cls, "nt": True}
 
 
+def _check_table_slope(case):
+    """the literal last clause of the statement: in a written table the force column is minus the slope of the
+    energy column (central differences of the printed energies on a fine grid; tolerance from a second stencil
+    and the printed precision) - no reference derivative involved"""
+    import io as _io
+    from vlib import parsers, pairtab
+    from atsim.potentials.pair_tabulation import LAMMPS_PairTabulation, DLPoly_PairTabulation
+    pd, cutoff, nr = case["pd"], case["cutoff"], case["nr"]
+    cls = ["stratum:table_slope", "slope:" + case["target"]]
+    ref = model.Ref(case["env"])
+    m = {"env": case["env"], "pair": [["A", "B", pd]]}
+    v = []
+    try:
+        pots = pairtab.api_potentials(m)
+        fp = _io.StringIO()
+        if case["target"] == "LAMMPS":
+            LAMMPS_PairTabulation(pots, cutoff, nr).write(fp)
+            blk = parsers.lammps_table(fp.getvalue())[0]
+            rs = [r for _, r, _, _ in blk["rows"]]
+            E = [e for _, _, e, _ in blk["rows"]]
+            F = [f for _, _, _, f in blk["rows"]]
+            prec = lambda x: 1.0000001e-8  # noqa: E731
+        else:
+            n4 = (nr - 1)
+            DLPoly_PairTabulation(pots, cutoff, n4).write(fp)
+            t = parsers.dlpoly_table(fp.getvalue())
+            rs = [(k + 1) * t["delpot"] for k in range(n4)]
+            E = t["blocks"][0]["energies"]
+            F = [g / r for g, r in zip(t["blocks"][0]["forces"], rs)]
+            prec = lambda x: 1.0000001e-7 * abs(x)  # noqa: E731
+    except (OverflowError, ZeroDivisionError, DomainError):
+        return {"v": [], "cls": cls, "nt": False, "skip": True}
+    except Exception as e:
+        return {"v": [("table_slope:exception:%s@%s" % (type(e).__name__, libroute.innermost_atsim_frame(e)), "%r\n%s" % (
+            e, render.potdef_text(pd)))], "cls": cls, "nt": False}
+    dr = rs[1] - rs[0]
+    checked = 0
+    for k in range(2, len(rs) - 2, 7):
+        r = rs[k]
+        if r < 0.6 or not model.same_piece(ref, pd, r, 2.5 * dr):
+            continue
+        s1 = (E[k + 1] - E[k - 1]) / (2 * dr)
+        s2 = (E[k + 2] - E[k - 2]) / (4 * dr)
+        noise = (prec(E[k + 1]) + prec(E[k - 1])) / (2 * dr) + prec(F[k]) * (1.0 if case["target"] == "LAMMPS" else 1.0 / r)
+        tol = 2.0 * abs(s1 - s2) + 2.0 * noise + 1e-9 * abs(s1)
+        if not abs(F[k] + s1) <= tol:
+            v.append(("table_slope:%s" % case["target"], "row %d r=%r: force %r but minus the slope of the tabulated energy "
+                      "is %r (tolerance %.3g)\n%s" % (k + 1, r, F[k], -s1, tol, render.potdef_text(pd))))
+            break
+        checked += 1
+    return {"v": v, "cls": cls + ["checked:table_slope"] * min(checked, 50), "nt": checked > 10}
+
+
 def check_case(case):
     k = case["kind"]
+    if k == "table_slope":
+        return _check_table_slope(case)
     if k == "expr":
         return _check_expr(case)
     if k == "locality":
